@@ -109,3 +109,84 @@ def run_and_compare(ctx, bdir, metas, traces):
             stats['agree'] += 1
             stats['by_variant'][key] = stats['by_variant'].get(key, 0) + 1
     return stats
+
+
+# ----------------------------------------------------------------------------- K-CLI(model): the binary vs the extracted cli_main
+def hexs(b):
+    if isinstance(b, str):
+        b = b.encode('latin-1')
+    return b.hex() if b else '-'
+
+
+def cli_case_line(cid, args, d, now=0):
+    """CLI <id> <now> <nargs> <hex args...> <nfiles> (<hex name> <hex content>)...  -- the files of directory d (not its sub-directories)"""
+    names = [f for f in sorted(os.listdir(d)) if os.path.isfile(os.path.join(d, f))]
+    t = ['CLI', str(cid), str(now), str(len(args))] + [hexs(a) for a in args] + [str(len(names))]
+    for f in names:
+        t += [hexs(f), hexs(open(os.path.join(d, f), 'rb').read())]
+    return ' '.join(t)
+
+
+def cli_impl_trace(rc, out, outdir, existed_before, stale):
+    """the canonical lines of one run of the real binary, as the driver prints them for cli_main"""
+    lines = []
+    if rc != 0:
+        lines.append(['status', 'ABORT'])
+        return lines
+    lines.append(['status', 'OK'])
+    got = files.read_result_files(outdir)
+    for name in ('run_info.dat', 'w_out.dat', 'u_out.dat', 'v_out.dat'):
+        if name not in got or (name in stale and got[name] == stale[name]):
+            continue
+        rows = got[name]
+        lines.append(['file', name, str(len(rows))])
+        for i, r in enumerate(rows):
+            r = [x.replace('-nan', 'nan') for x in r]
+            lines.append(['row', name, str(i), ':'] + r)
+    return lines
+
+
+def compare_with_model(ctx, bdir, metas, name='K-CLI(model)'):
+    """the real binary on (argv, files) vs the extracted Gallina cli_main on the same argv and file contents: exit status, which files
+    exist, every token of every file (the duration is a wildcard)"""
+    wd = vf.workdir()
+    cases = []
+    for m in metas:
+        cases.append(cli_case_line(m['cid'], m['args'], m['dir']))
+    cp = os.path.join(wd, 'cli_model.cases')
+    open(cp, 'w').write('\n'.join(cases) + '\n')
+    rc, out = vf.run_model(cp, cp + '.model')
+    tm, _ = vf.parse_trace(cp + '.model')
+    st = {'cases': len(metas), 'compared_tokens': 0, 'mismatches': 0, 'crashes': 0, 'compared': 'exit status, files present, every token of every file'}
+    if rc != 0:
+        ctx.tie_failures.append('correspondence %s: the model driver failed: %s' % (name, out[-300:]))
+    for m, case in zip(metas, cases):
+        # a fresh directory holding the input files only (the case directory may carry results of an earlier run)
+        fresh = os.path.join(wd, 'climodel_%d' % m['cid'])
+        os.makedirs(fresh, exist_ok=True)
+        for f in os.listdir(m['dir']):
+            if os.path.isfile(os.path.join(m['dir'], f)):
+                shutil.copy(os.path.join(m['dir'], f), fresh)
+        outdir = os.path.join(fresh, os.path.relpath(m['out'], m['dir']))
+        stale = {}
+        rc, out = vf.run_cli(bdir, m['args'], fresh)
+        impl = cli_impl_trace(rc, out, outdir, None, stale)
+        model = [x for x in tm.get('C %d' % m['cid'], [])]
+        model = [x[:2] if x[0] == 'status' and x[1] == 'ABORT' else x for x in model if x[0] != 'outdir']
+        def wild(rows):
+            return [(['row', 'run_info.dat', r[2], ':', '#', 'Duration', '(s)', '=', '?'] if r[:2] == ['row', 'run_info.dat'] and r[4:7] == ['#', 'Duration', '(s)'] else r) for r in rows]
+        a, b = wild(impl), wild(model)
+        st['compared_tokens'] += sum(len(x) for x in a)
+        if 'ERROR: AddressSanitizer' in out or 'runtime error:' in out:
+            st['crashes'] += 1
+            ctx.tie_failures.append('correspondence %s: sanitizer report from the binary on %s' % (name, ' '.join(m['args'])))
+        elif a != b:
+            st['mismatches'] += 1
+            first = next((i for i, (x, y) in enumerate(zip(a, b)) if x != y), min(len(a), len(b)))
+            if st['mismatches'] == 1:
+                st['first_mismatch'] = {'args': m['args'], 'impl': ' '.join(a[first])[:300] if first < len(a) else None,
+                                        'model': ' '.join(b[first])[:300] if first < len(b) else None, 'case': case[:2000]}
+                ctx.tie_failures.append('correspondence %s: the binary and cli_main differ on `%s`: impl=%s model=%s' % (
+                    name, ' '.join(m['args']), st['first_mismatch']['impl'], st['first_mismatch']['model']))
+    ctx.components[name] = st
+    return st
